@@ -49,6 +49,8 @@ where
     pub fn set_prompt(&mut self, prompt: &'static str) {
 //@ ensures final(self).wf() == old(self).wf(), final(self).errs() == old(self).errs(), old(self).wf() ==> handle_api_only(self),
 //@     final(self).writer == old(self).writer,
+//@ ---
+//@ proof { assert(self.writer.evs().subrange(0, self.writer.evs().len() as int) =~= self.writer.evs()); }
         self.new_prompt = Some(prompt)
     }
 
@@ -72,6 +74,8 @@ where
 //@     &&& final(h).writer.wf() && final(h).writer.base == h.writer.base
 //@     &&& final(h).writer.fin_evs() == h.writer.fin_evs() && final(h).writer.fin_errs() == h.writer.fin_errs()
 //@     &&& final(h).writer.errs() >= h.writer.errs()
+//@     // the sink log only grows
+//@     &&& final(h).writer.evs().len() >= h.writer.evs().len() && final(h).writer.evs().subrange(0, h.writer.evs().len() as int) == h.writer.evs()
 //@ }
 //@ #[verifier::external]   // NOT MIRRORED: Debug formatting glue
 impl<W, E> Debug for CliHandle<'_, W, E>
@@ -149,6 +153,18 @@ where
 //@ pub closed spec fn line_bytes(&self) -> Seq<u8> { self.editor.unwrap().line_bytes() }
 //@ pub closed spec fn cur(&self) -> nat { self.editor.unwrap().cur() }
 //@ pub closed spec fn prompt_bytes(&self) -> Seq<u8> { self.prompt.spec_bytes() }
+//@ /// C06: the terminal (as driven by the sink events so far) shows prompt + the given editor's line, cursor at its cursor
+//@ pub closed spec fn disp(&self, ed: &Editor<CommandBuffer>) -> bool {
+//@     shows(term_run(self.writer.evs()), self.prompt@, ed.line(), ed.cur() as int)
+//@ }
+//@ pub closed spec fn displayed(&self) -> bool { self.disp(&self.editor.unwrap()) }
+//@ /// prompt and edited line are printable text (no C0 controls, no DEL)
+//@ pub closed spec fn printable_with(&self, ed: &Editor<CommandBuffer>) -> bool {
+//@     printable_bytes(self.prompt.spec_bytes()) && printable_bytes(ed.line_bytes())
+//@ }
+//@ pub closed spec fn printable_state(&self) -> bool { self.printable_with(&self.editor.unwrap()) }
+//@ /// the terminal is at the start of an empty line
+//@ pub closed spec fn at_fresh_line(&self) -> bool { is_fresh(term_run(self.writer.evs())) }
 //@ /// everything except editor and decoder is in place (state inside process_byte)
 //@ pub closed spec fn wf_inner(&self) -> bool { self.hist_wf() }
 //@ #[cfg(feature = "history")]
@@ -175,7 +191,11 @@ where
 //@     r matches Ok(c) ==> c.wf() && c.line_bytes() == Seq::<u8>::empty() && c.cur() == 0
 //@         && c.errs() == writer.errs()
 //@         // C15: the prompt has been written and flushed
-//@         && c.evs() == writer.evs().push(Ev::W(c.prompt_bytes())).push(Ev::F),   // [C15]
+//@         && c.evs() == writer.evs().push(Ev::W(c.prompt_bytes())).push(Ev::F)   // [C15]
+//@         // C06: started on an empty terminal line, the prompt is shown with the cursor behind it
+//@         && (is_fresh(term_run(writer.evs())) && printable_bytes(c.prompt_bytes()) ==> c.displayed()),   // [C06]
+//@ ---
+//@ let ghost evs0 = writer.evs();
         let mut cli = Self {
             editor: Some(Editor::new(command_buffer)),
             #[cfg(feature = "history")]
@@ -188,6 +208,17 @@ where
         };
 
         cli.writer.flush_str(cli.prompt)?;
+//@ proof {   // [C06]
+//@     broadcast use lemma_str_view_bytes;
+//@     let pb = cli.prompt.spec_bytes();
+//@     lemma_term_push(evs0.push(Ev::W(pb)), Ev::F);
+//@     lemma_term_push(evs0, Ev::W(pb));
+//@     if is_fresh(term_run(evs0)) && printable_bytes(pb) {
+//@         lemma_show_fresh(term_run(evs0), cli.prompt@, Seq::<char>::empty());
+//@         assert(cli.editor.unwrap().line() =~= Seq::<char>::empty());
+//@         assert(term_put(term_put(term_run(evs0), cli.prompt@), Seq::<char>::empty()).cells =~= term_put(term_run(evs0), cli.prompt@).cells);
+//@     }
+//@ }
 
         Ok(cli)
     }
@@ -199,7 +230,11 @@ where
 //@     r matches Ok(c) ==> c.wf() && c.line_bytes() == Seq::<u8>::empty() && c.cur() == 0
 //@         && c.errs() == builder.writer.errs() && c.prompt_bytes() == builder.prompt.spec_bytes()
 //@         // C15: the prompt has been written and flushed
-//@         && c.evs() == builder.writer.evs().push(Ev::W(c.prompt_bytes())).push(Ev::F),   // [C15]
+//@         && c.evs() == builder.writer.evs().push(Ev::W(c.prompt_bytes())).push(Ev::F)   // [C15]
+//@         // C06: started on an empty terminal line, the prompt is shown with the cursor behind it
+//@         && (is_fresh(term_run(builder.writer.evs())) && printable_bytes(c.prompt_bytes()) ==> c.displayed()),   // [C06]
+//@ ---
+//@ let ghost evs0 = builder.writer.evs();
         let mut cli = Self {
             editor: Some(Editor::new(builder.command_buffer)),
             #[cfg(feature = "history")]
@@ -212,6 +247,17 @@ where
         };
 
         cli.writer.flush_str(cli.prompt)?;
+//@ proof {   // [C06]
+//@     broadcast use lemma_str_view_bytes;
+//@     let pb = cli.prompt.spec_bytes();
+//@     lemma_term_push(evs0.push(Ev::W(pb)), Ev::F);
+//@     lemma_term_push(evs0, Ev::W(pb));
+//@     if is_fresh(term_run(evs0)) && printable_bytes(pb) {
+//@         lemma_show_fresh(term_run(evs0), cli.prompt@, Seq::<char>::empty());
+//@         assert(cli.editor.unwrap().line() =~= Seq::<char>::empty());
+//@         assert(term_put(term_put(term_run(evs0), cli.prompt@), Seq::<char>::empty()).cells =~= term_put(term_run(evs0), cli.prompt@).cells);
+//@     }
+//@ }
 
         Ok(cli)
     }
@@ -237,6 +283,9 @@ where
 //@     final(processor).calls() == old(processor).calls()
 //@         || (nul_free(old(self).line_bytes()) ==> (dispatch_of(old(self).line_bytes(), feat_help()) matches Some(x)
 //@             && final(processor).calls() == old(processor).calls().push(x))),   // [C01,C12]
+//@     // C06: whatever byte arrives, afterwards the terminal again shows the prompt followed by the edited line with the
+//@     // cursor at the editor's cursor (prompt and line being printable text; DEL and a non-printable prompt are outside)
+//@     r is Ok && old(self).displayed() && final(self).printable_state() ==> final(self).displayed(),   // [C06]
         if let (Some(mut editor), Some(mut input_generator)) =
             (self.editor.take(), self.input_generator.take())
         {
@@ -269,14 +318,12 @@ where
 //@     final(self).prompt_bytes() == prompt.spec_bytes(),
 //@     r is Ok ==> final(self).errs() == old(self).errs(),   // [C14]
 //@     r is Ok ==> final(self).evs().len() > 0 && final(self).evs().last() is F,   // [C15]
+//@     // C06: the line is redrawn behind the new prompt, cursor where the editor's cursor is -- whatever was shown before
+//@     r is Ok && final(self).printable_state() ==> final(self).displayed(),   // [C06]
         self.prompt = prompt;
         self.clear_line(false)?;
 
-        if let Some(editor) = self.editor.as_mut() {
-            self.writer.flush_str(editor.text())?;
-        }
-
-        Ok(())
+        self.write_input()
     }
 
     pub fn write(
@@ -292,7 +339,11 @@ where
 //@     final(self).prompt_bytes() == old(self).prompt_bytes(),
 //@     r is Ok ==> final(self).errs() == old(self).errs(),   // [C14]
 //@     r is Ok ==> final(self).evs().len() > 0 && final(self).evs().last() is F,   // [C15]
+//@     // C06/C13: the line being edited is erased, the output goes on its own lines, and prompt and line are shown
+//@     // again below it at column 0 with the cursor where it was
+//@     r is Ok && final(self).printable_state() ==> final(self).displayed(),   // [C06,C13]
         self.clear_line(true)?;
+//@ let ghost evs1 = self.writer.evs();
 
         let mut cli_writer = Writer::new(&mut self.writer);
 
@@ -300,11 +351,83 @@ where
 
         // we should write back input that was there before writing
         if cli_writer.is_dirty() {
+//@ let ghost evs2 = self.writer.evs();
             self.writer.write_str(codes::CRLF)?;
+//@ proof {   // [C06,C13]
+//@     lemma_crlf_bytes();
+//@     lemma_term_push(evs2, Ev::W(codes::CRLF.spec_bytes()));
+//@     lemma_term_w_controls(term_run(evs2));
+//@     assert(ends_crlf(codes::CRLF.spec_bytes()));
+//@ }
         }
+//@ let ghost evs3 = self.writer.evs();
+//@ proof {   // [C06,C13]
+//@     if evs3.len() == evs1.len() { assert(evs3 =~= evs3.subrange(0, evs1.len() as int)); }
+//@     assert(is_fresh(term_run(evs3)));
+//@     broadcast use lemma_str_view_bytes;
+//@     lemma_term_push(evs3, Ev::W(self.prompt.spec_bytes()));
+//@     if printable_bytes(self.prompt.spec_bytes()) {
+//@         lemma_show_fresh(term_run(evs3), self.prompt@, Seq::<char>::empty());
+//@         assert(term_put(term_put(term_run(evs3), self.prompt@), Seq::<char>::empty()).cells =~= term_put(term_run(evs3), self.prompt@).cells);
+//@     }
+//@ }
         self.writer.write_str(self.prompt)?;
+        self.write_input()
+    }
+
+    /// Writes current input after the prompt and leaves terminal cursor
+    /// where editor cursor is (it can be inside the line)
+//@ #[verifier::loop_isolation(false)]
+    fn write_input(&mut self) -> Result<(), E> {
+//@ requires old(self).editor is Some ==> old(self).editor.unwrap().wf(),
+//@ ensures final(self).rest_eq(old(self)),
+//@     r is Ok ==> final(self).writer.errs() == old(self).writer.errs(),   // [C14]
+//@     r is Ok && old(self).editor is Some ==> final(self).writer.evs().len() > 0 && final(self).writer.evs().last() is F,   // [C15]
+//@     // C06: behind a freshly written prompt the line is written out and the cursor taken back to the editor's cursor
+//@     r is Ok && old(self).editor is Some && printable_bytes(old(self).editor.unwrap().line_bytes())
+//@         && shows(term_run(old(self).writer.evs()), old(self).prompt@, Seq::<char>::empty(), 0) ==> final(self).displayed(),   // [C06]
+//@ ---
+//@ let ghost evs0 = self.writer.evs();
+//@ let ghost me0 = *self;
         if let Some(editor) = self.editor.as_mut() {
-            self.writer.flush_str(editor.text())?;
+//@ let ghost l = editor.line();
+//@ let ghost lb = editor.line_bytes();
+//@ let ghost cur = editor.cur() as int;
+//@ proof { broadcast use lemma_str_view_bytes; }
+            self.writer.write_str(editor.text())?;
+//@ let ghost evs1 = self.writer.evs();
+//@ let ghost t1 = term_run(evs1);
+//@ proof {   // [C06]
+//@     lemma_term_push(evs0, Ev::W(lb));
+//@     assert(term_cub_n(t1, 0) == t1);
+//@ }
+            for _i in editor.cursor()..editor.len() {
+//@ for_iter it
+//@ invariant
+//@     it.iter.end == l.len(), cur <= _i <= l.len(), me0.editor is Some, *editor == me0.editor.unwrap(),
+//@     self.writer.errs() == me0.writer.errs(),
+//@     self.prompt == me0.prompt, self.input_generator == me0.input_generator, self.same_hist(&me0),
+//@     term_run(self.writer.evs()) == term_cub_n(t1, _i - cur),   // [C06]
+//@     self.writer.evs().len() > 0,
+//@ ---
+//@ let ghost evs2 = self.writer.evs();
+                self.writer.write_bytes(codes::CURSOR_BACKWARD)?;
+//@ proof {   // [C06]
+//@     lemma_term_push(evs2, Ev::W(seq_cub()));
+//@     lemma_term_w_controls(term_run(evs2));
+//@     assert(term_cub_n(t1, _i + 1 - cur) == term_cub(term_cub_n(t1, _i - cur)));
+//@ }
+            }
+//@ let ghost evs3 = self.writer.evs();
+            self.writer.flush()?;
+//@ proof {   // [C06]
+//@     lemma_term_push(evs3, Ev::F);
+//@     if printable_bytes(lb) && shows(term_run(evs0), me0.prompt@, Seq::<char>::empty(), 0) {
+//@         lemma_show_put_end(term_run(evs0), me0.prompt@, Seq::<char>::empty(), l);
+//@         assert(Seq::<char>::empty() + l =~= l);
+//@         lemma_show_cub_n(t1, me0.prompt@, l, l.len() as int, l.len() - cur);
+//@     }
+//@ }
         }
 
         Ok(())
@@ -314,6 +437,13 @@ where
 //@ ensures final(self).rest_eq(old(self)),
 //@     r is Ok ==> final(self).writer.errs() == old(self).writer.errs(),   // [C14]
 //@     r is Ok ==> final(self).writer.evs().len() > 0 && final(self).writer.evs().last() is F,   // [C15]
+//@     // C06: CR, erase line, (prompt): the terminal line is empty (shows just the prompt), whatever it showed before
+//@     r is Ok && clear_prompt ==> is_fresh(term_run(final(self).writer.evs())),   // [C06]
+//@     r is Ok && !clear_prompt && printable_bytes(old(self).prompt.spec_bytes()) ==>
+//@         shows(term_run(final(self).writer.evs()), old(self).prompt@, Seq::<char>::empty(), 0),   // [C06]
+//@ ---
+//@ let ghost evs0 = self.writer.evs();
+//@ proof { broadcast use lemma_str_view_bytes; lemma_cr_bytes(); }
         self.writer.write_str("\r")?;
         self.writer.write_bytes(codes::CLEAR_LINE)?;
 
@@ -321,6 +451,30 @@ where
             self.writer.write_str(self.prompt)?;
         }
 
+//@ let ghost evs3 = self.writer.evs();
+//@ proof {   // [C06]
+//@     let t0 = term_run(evs0);
+//@     let e1 = evs0.push(Ev::W(seq_cr()));
+//@     let e2 = e1.push(Ev::W(seq_el2()));
+//@     lemma_term_push(evs0, Ev::W(seq_cr()));
+//@     lemma_term_push(e1, Ev::W(seq_el2()));
+//@     lemma_term_w_controls(t0);
+//@     lemma_term_w_controls(term_run(e1));
+//@     let t2 = term_el2(term_cr(t0));
+//@     assert(term_run(e2) == t2);
+//@     if clear_prompt {
+//@         assert(evs3 == e2);
+//@     } else {
+//@         let pb = self.prompt.spec_bytes();
+//@         lemma_term_push(e2, Ev::W(pb));
+//@         assert(evs3 == e2.push(Ev::W(pb)));
+//@         if printable_bytes(pb) {
+//@             lemma_show_redraw(t0, self.prompt@, Seq::<char>::empty());
+//@             assert(term_put(term_put(t2, self.prompt@), Seq::<char>::empty()).cells =~= term_put(t2, self.prompt@).cells);
+//@         }
+//@     }
+//@     lemma_term_push(evs3, Ev::F);
+//@ }
         self.writer.flush()
     }
 
@@ -333,14 +487,52 @@ where
 //@        &&& fits ==> final(editor).line() == l.subrange(0, c) + text@ + l.subrange(c, l.len() as int) && final(editor).cur() == c + 1
 //@        &&& !fits ==> final(editor).line_bytes() == old(editor).line_bytes() && final(editor).cur() == old(editor).cur() }),   // [C05,C14]
 //@     r is Ok ==> final(self).sink_ok(old(self)),   // [C14,C15]
+//@     // C06: a typed printable character is echoed where it went in (ICH first when inside the line); a rejected one
+//@     // changes nothing on the terminal either
+//@     r is Ok && old(self).disp(old(editor)) && printable_bytes(final(editor).line_bytes()) ==> final(self).disp(final(editor)),   // [C06]
+//@ ---
+//@ let ghost evs0 = self.writer.evs();
+//@ let ghost l0 = editor.line();
+//@ let ghost c0 = editor.cur() as int;
         let is_inside = editor.cursor() < editor.len();
         if let Some(c) = editor.insert(text) {
+//@ let ghost cb = c.spec_bytes();
+//@ proof {
+//@     broadcast use lemma_str_view_bytes;
+//@     decode_utf8_encode_utf8(cb); decode_utf8_encode_utf8(text.spec_bytes());
+//@     assert(cb == text.spec_bytes());
+//@ }
             if is_inside {
                 // text is always one char
                 proof { assert(c@.len() == 1); }
                 self.writer.write_bytes(codes::INSERT_CHAR)?;
             }
+//@ let ghost evs1 = self.writer.evs();
             self.writer.flush_str(c)?;
+//@ proof {   // [C06]
+//@     let t0 = term_run(evs0);
+//@     lemma_term_push(evs1.push(Ev::W(cb)), Ev::F);
+//@     lemma_term_push(evs1, Ev::W(cb));
+//@     if is_inside {
+//@         lemma_term_push(evs0, Ev::W(seq_ich()));
+//@         lemma_term_w_controls(t0);
+//@         assert(evs1 == evs0.push(Ev::W(seq_ich())));
+//@     }
+//@     if shows(t0, self.prompt@, l0, c0) && printable_bytes(editor.line_bytes()) {
+//@         // the character that went in is part of a printable line
+//@         decode_utf8_encode_utf8(editor.line_bytes());
+//@         lemma_printable_part(l0.subrange(0, c0), text@, l0.subrange(c0, l0.len() as int));
+//@         assert(printable_bytes(cb));
+//@         if is_inside {
+//@             lemma_show_insert(t0, self.prompt@, l0, c0, text@);
+//@         } else {
+//@             assert(l0.subrange(0, c0) =~= l0);
+//@             assert(l0.subrange(c0, l0.len() as int) =~= Seq::<char>::empty());
+//@             assert(l0 + text@ + Seq::<char>::empty() =~= l0 + text@);
+//@             lemma_show_put_end(t0, self.prompt@, l0, text@);
+//@         }
+//@     }
+//@ }
         }
         Ok(())
     }
@@ -379,9 +571,23 @@ where
 //@     // C14: after a failed Enter the line is as it was or cleared, never a tokenised mixture
 //@     control is Enter && r is Err ==> (final(editor).line_bytes() == old(editor).line_bytes() && final(editor).cur() == old(editor).cur())
 //@         || (final(editor).line_bytes() == Seq::<u8>::empty() && final(editor).cur() == 0),   // [C14]
+//@     // C06: after every key the terminal shows the current prompt followed by the edited line, cursor at the editor's
+//@     // cursor (as long as prompt and line are printable text)
+//@     r is Ok && old(self).disp(old(editor)) && final(self).printable_with(final(editor)) ==> final(self).disp(final(editor)),   // [C06]
+//@ ---
+//@ let ghost evs0 = self.writer.evs();
+//@ let ghost l0 = editor.line();
+//@ let ghost c0 = editor.cur() as int;
         match control {
             ControlInput::Enter => {
                 self.writer.write_str(codes::CRLF)?;
+//@ proof {   // [C06,C13]
+//@     lemma_crlf_bytes();
+//@     lemma_term_push(evs0, Ev::W(codes::CRLF.spec_bytes()));
+//@     lemma_term_w_controls(term_run(evs0));
+//@     assert(ends_crlf(codes::CRLF.spec_bytes()));
+//@     assert(is_fresh(term_run(self.writer.evs())));
+//@ }
 
                 #[cfg(feature = "history")]
                 self.history.push(editor.text());
@@ -393,8 +599,20 @@ where
                 // line was tokenized in place, so it is cleared even if processing failed
                 editor.clear();
                 result?;
+//@ let ghost evs5 = self.writer.evs();
 
                 self.writer.flush_str(self.prompt)?;
+//@ proof {   // [C06]
+//@     broadcast use lemma_str_view_bytes;
+//@     let pb = self.prompt.spec_bytes();
+//@     lemma_term_push(evs5.push(Ev::W(pb)), Ev::F);
+//@     lemma_term_push(evs5, Ev::W(pb));
+//@     if printable_bytes(pb) {
+//@         lemma_show_fresh(term_run(evs5), self.prompt@, Seq::<char>::empty());
+//@         assert(editor.line() =~= Seq::<char>::empty());
+//@         assert(term_put(term_put(term_run(evs5), self.prompt@), Seq::<char>::empty()).cells =~= term_put(term_run(evs5), self.prompt@).cells);
+//@     }
+//@ }
             }
             ControlInput::Tab => {
                 #[cfg(feature = "autocomplete")]
@@ -405,6 +623,16 @@ where
                     editor.remove();
                     self.writer.flush_bytes(codes::CURSOR_BACKWARD)?;
                     self.writer.flush_bytes(codes::DELETE_CHAR)?;
+//@ proof {   // [C06]
+//@     let t0 = term_run(evs0);
+//@     let e1 = evs0.push(Ev::W(seq_cub()));
+//@     let e2 = e1.push(Ev::F);
+//@     let e3 = e2.push(Ev::W(seq_dch()));
+//@     lemma_term_push(evs0, Ev::W(seq_cub())); lemma_term_push(e1, Ev::F);
+//@     lemma_term_push(e2, Ev::W(seq_dch())); lemma_term_push(e3, Ev::F);
+//@     lemma_term_w_controls(t0); lemma_term_w_controls(term_run(e2));
+//@     if shows(t0, self.prompt@, l0, c0) { lemma_show_backspace(t0, self.prompt@, l0, c0); }
+//@ }
                 }
             }
             ControlInput::Down =>
@@ -433,12 +661,19 @@ where
 //@ ensures final(editor).wf(), final(editor).cap() == old(editor).cap(), final(self).rest_eq(old(self)),
 //@     final(editor).line_bytes() == old(editor).line_bytes(),   // [C05]
 //@     r is Ok ==> final(self).sink_ok(old(self)),   // [C14,C15]
+//@     // C06: the terminal cursor follows the editor cursor, and stays where it is at the ends of the line
+//@     r is Ok && old(self).disp(old(editor)) ==> final(self).disp(final(editor)),   // [C06]
+//@ ---
+//@ let ghost evs0 = self.writer.evs();
+//@ proof { lemma_term_w_controls(term_run(evs0)); }
         match dir {
             NavigateInput::Backward => if editor.move_left() {
                 self.writer.flush_bytes(codes::CURSOR_BACKWARD)?;
+//@ proof { lemma_term_push(evs0.push(Ev::W(seq_cub())), Ev::F); lemma_term_push(evs0, Ev::W(seq_cub())); }   // [C06]
             } else { return Ok(()) },
             NavigateInput::Forward => if editor.move_right() {
                 self.writer.flush_bytes(codes::CURSOR_FORWARD)?;
+//@ proof { lemma_term_push(evs0.push(Ev::W(seq_cuf())), Ev::F); lemma_term_push(evs0, Ev::W(seq_cuf())); }   // [C06]
             } else { return Ok(()) },
         }
         Ok(())
@@ -454,6 +689,8 @@ where
 //@ ensures final(editor).wf(), final(self).wf_inner(), final(editor).cap() == old(editor).cap(),
 //@     final(self).editor == old(self).editor, final(self).input_generator == old(self).input_generator, final(self).prompt == old(self).prompt,
 //@     r is Ok ==> final(self).sink_ok(old(self)),   // [C14,C15]
+//@     // C06: a recalled line (or the empty line past the newest) replaces what the terminal showed; otherwise nothing changes
+//@     r is Ok && old(self).disp(old(editor)) && final(self).printable_with(final(editor)) ==> final(self).disp(final(editor)),   // [C06]
         let history_elem = match dir {
             NavigateHistory::Older => self.history.next_older(),
             NavigateHistory::Newer => self.history.next_newer().or(Some("")),
@@ -461,9 +698,24 @@ where
         if let Some(element) = history_elem {
             editor.clear();
             editor.insert(element);
+//@ proof {
+//@     assert(Seq::<char>::empty().subrange(0, 0) + element@ + Seq::<char>::empty().subrange(0, 0) =~= element@);
+//@     assert(editor.cur() == editor.line().len());
+//@ }
             self.clear_line(false)?;
+//@ let ghost evs1 = self.writer.evs();
+//@ let ghost lb = editor.line_bytes();
 
             self.writer.flush_str(editor.text())?;
+//@ proof {   // [C06]
+//@     broadcast use lemma_str_view_bytes;
+//@     lemma_term_push(evs1.push(Ev::W(lb)), Ev::F);
+//@     lemma_term_push(evs1, Ev::W(lb));
+//@     if printable_bytes(self.prompt.spec_bytes()) && printable_bytes(lb) {
+//@         lemma_show_put_end(term_run(evs1), self.prompt@, Seq::<char>::empty(), editor.line());
+//@         assert(Seq::<char>::empty() + editor.line() =~= editor.line());
+//@     }
+//@ }
         }
         Ok(())
     }
@@ -489,9 +741,13 @@ where
 //@                && (st.auto is None ==> final(editor).cur() == old(editor).cur())
 //@                && (st.auto is Some ==> final(editor).cur() == final(editor).line().len()),
 //@        } }),   // [C11]
+//@     // C06: what was completed is echoed from the old cursor position on, so the terminal shows the new line
+//@     r is Ok && old(self).disp(old(editor)) && printable_bytes(final(editor).line_bytes()) ==> final(self).disp(final(editor)),   // [C06]
         let initial_cursor = editor.cursor();
 //@ let ghost line0 = editor.line_bytes();
 //@ let ghost rl0 = editor.ac_req_len();
+//@ let ghost l0 = editor.line();
+//@ let ghost evs0 = self.writer.evs();
         editor.autocompletion(|request: Request<'_>, autocompletion: &mut Autocompletion<'_>| {
 //@ requires autocompletion.wf(),
 //@ ensures crate::autocomplete::ac_api_only(autocompletion),
@@ -540,10 +796,42 @@ where
                 }
             }
         });
+//@ let ghost l2 = editor.line();
         if editor.cursor() > initial_cursor {
             let autocompleted = editor.text_range(initial_cursor..);
+//@ let ghost ab = autocompleted.spec_bytes();
             self.writer.flush_str(autocompleted)?;
+//@ proof {   // [C06]
+//@     broadcast use lemma_str_view_bytes;
+//@     lemma_term_push(evs0.push(Ev::W(ab)), Ev::F);
+//@     lemma_term_push(evs0, Ev::W(ab));
+//@     let ic = initial_cursor as int;
+//@     if shows(term_run(evs0), self.prompt@, l0, ic) && printable_bytes(editor.line_bytes()) {
+//@         // the echoed tail of a printable line is printable
+//@         lemma_split_at_char(editor.line_bytes(), ic);
+//@         decode_utf8_encode_utf8(ab);
+//@         assert(ab == editor.line_bytes().subrange(byte_off(l2, ic), editor.line_bytes().len() as int));
+//@         assert(printable_bytes(ab)) by {
+//@             let lb = editor.line_bytes(); let o = byte_off(l2, ic);
+//@             assert forall|i: int| 0 <= i < ab.len() implies #[trigger] ab[i] >= 0x20 && ab[i] != 0x7F by { assert(ab[i] == lb[o + i]); }
+//@         }
+//@         lemma_show_complete(term_run(evs0), self.prompt@, l0, ic, l2);
+//@     }
+//@ }
         }
+//@ proof {   // [C06]
+//@     let ic = initial_cursor as int;
+//@     if editor.cur() <= ic && shows(term_run(evs0), self.prompt@, l0, ic) && l2 != l0 {
+//@         assert(editor.cur() == l2.len());
+//@         assert(ic == old(editor).cur());
+//@         assert(ic <= l2.len());
+//@         assert(editor.cur() <= ic);
+//@         assert(l2.len() == ic);
+//@         assert(l2 =~= l2.subrange(0, ic));
+//@         assert(l2 == l0.subrange(0, l2.len() as int));
+//@         lemma_show_shrink(term_run(evs0), self.prompt@, l0, ic, l2);
+//@     }
+//@ }
         Ok(())
     }
 
@@ -557,6 +845,11 @@ where
 //@     final(handler).calls() == old(handler).calls().push((command.name_bytes(), command.arg_tokens())),   // [C01]
 //@     r is Ok ==> final(self).writer.errs() == old(self).writer.errs(),   // [C14]
 //@     r is Ok ==> final(self).writer.evs().len() > 0 && final(self).writer.evs().last() is F,   // [C15]
+//@     // C06/C13: whatever the handler printed, the terminal is at the start of an empty line afterwards: one line break
+//@     // is added iff the output is non-empty and does not end with one
+//@     r is Ok && is_fresh(term_run(old(self).writer.evs())) ==> is_fresh(term_run(final(self).writer.evs())),   // [C06,C13]
+//@ ---
+//@ let ghost evs0 = self.writer.evs();
         let cli_writer = Writer::new(&mut self.writer);
         let mut handle = CliHandle::new(cli_writer);
 
@@ -565,9 +858,21 @@ where
         if let Some(prompt) = handle.new_prompt {
             self.prompt = prompt;
         }
+//@ proof {   // [C06,C13]
+//@     if handle.writer.evs().len() == evs0.len() { assert(handle.writer.evs() =~= handle.writer.evs().subrange(0, evs0.len() as int)); }
+//@ }
         if handle.writer.is_dirty() {
+//@ let ghost evs2 = self.writer.evs();
             self.writer.write_str(codes::CRLF)?;
+//@ proof {   // [C06,C13]
+//@     lemma_crlf_bytes();
+//@     lemma_term_push(evs2, Ev::W(codes::CRLF.spec_bytes()));
+//@     lemma_term_w_controls(term_run(evs2));
+//@     assert(ends_crlf(codes::CRLF.spec_bytes()));
+//@ }
         }
+//@ let ghost evs3 = self.writer.evs();
+//@ proof { lemma_term_push(evs3, Ev::F); }   // [C06,C13]
         self.writer.flush()?;
 
         match res {
@@ -590,6 +895,7 @@ where
 //@         else if feat_help() && wants_help(tokens.view()[0], tokens.view().drop_first()) { old(handler).calls() }
 //@         else { old(handler).calls().push((tokens.view()[0], tokens.view().drop_first())) }),   // [C01,C12]
 //@     r is Ok ==> final(self).sink_ok(old(self)),   // [C14,C15]
+//@     r is Ok && is_fresh(term_run(old(self).writer.evs())) ==> is_fresh(term_run(final(self).writer.evs())),   // [C06,C13]
         if let Some(command) = RawCommand::from_tokens(&tokens) {
             #[cfg(feature = "help")]
             if let Some(request) = HelpRequest::from_command(&command) {
@@ -606,6 +912,8 @@ where
 //@ ensures final(self).rest_eq(old(self)),
 //@     r is Ok ==> final(self).writer.errs() == old(self).writer.errs(),   // [C14]
 //@     r is Ok ==> final(self).writer.evs().len() > 0 && final(self).writer.evs().last() is F,   // [C15]
+//@     // C06/C13: the message ends with a line break: the terminal is at the start of an empty line afterwards
+//@     r is Ok ==> is_fresh(term_run(final(self).writer.evs())),   // [C06,C13]
         self.writer.write_str("error: ")?;
         match error {
             ParseError::MissingRequiredArgument { name } => {
@@ -637,6 +945,14 @@ where
                 self.writer.write_str("unknown command")?;
             }
         }
+//@ let ghost evsk = self.writer.evs();
+//@ proof {   // [C06,C13]
+//@     lemma_crlf_bytes();
+//@     lemma_term_push(evsk.push(Ev::W(codes::CRLF.spec_bytes())), Ev::F);
+//@     lemma_term_push(evsk, Ev::W(codes::CRLF.spec_bytes()));
+//@     lemma_term_w_controls(term_run(evsk));
+//@     assert(ends_crlf(codes::CRLF.spec_bytes()));
+//@ }
         self.writer.flush_str(codes::CRLF)
     }
 
@@ -645,6 +961,10 @@ where
 //@ ensures final(self).rest_eq(old(self)),
 //@     r is Ok ==> final(self).writer.errs() == old(self).writer.errs(),   // [C14]
 //@     r is Ok ==> final(self).writer.evs().len() > 0 && final(self).writer.evs().last() is F,   // [C15]
+//@     // C06/C13: help output ends on its own line
+//@     r is Ok && is_fresh(term_run(old(self).writer.evs())) ==> is_fresh(term_run(final(self).writer.evs())),   // [C06,C13]
+//@ ---
+//@ let ghost evs0 = self.writer.evs();
         let mut writer = Writer::new(&mut self.writer);
 
         match request {
@@ -661,9 +981,21 @@ where
             }
         };
 
+//@ proof {   // [C06,C13]
+//@     if writer.evs().len() == evs0.len() { assert(writer.evs() =~= writer.evs().subrange(0, evs0.len() as int)); }
+//@ }
         if writer.is_dirty() {
+//@ let ghost evs2 = self.writer.evs();
             self.writer.write_str(codes::CRLF)?;
+//@ proof {   // [C06,C13]
+//@     lemma_crlf_bytes();
+//@     lemma_term_push(evs2, Ev::W(codes::CRLF.spec_bytes()));
+//@     lemma_term_w_controls(term_run(evs2));
+//@     assert(ends_crlf(codes::CRLF.spec_bytes()));
+//@ }
         }
+//@ let ghost evs3 = self.writer.evs();
+//@ proof { lemma_term_push(evs3, Ev::F); }   // [C06,C13]
         self.writer.flush()?;
 
         Ok(())
